@@ -387,11 +387,16 @@ func (ps *PubSub) Channels() []string {
 	}
 
 	var channels []string
+	// Several connections may be subscribed to the same channel, report it once.
+	set := make(map[string]struct{})
 	for _, sconn := range ps.conns {
 		sconn.mu.Lock()
 		for ient := range sconn.entries {
 			if !ient.pattern {
-				channels = append(channels, ient.channel)
+				if _, ok := set[ient.channel]; !ok {
+					set[ient.channel] = struct{}{}
+					channels = append(channels, ient.channel)
+				}
 			}
 		}
 		sconn.mu.Unlock()
@@ -409,11 +414,16 @@ func (ps *PubSub) ChannelsWithPatterns(pattern string) []string {
 	}
 
 	var channels []string
+	// Several connections may be subscribed to the same channel, report it once.
+	set := make(map[string]struct{})
 	for _, sconn := range ps.conns {
 		sconn.mu.Lock()
 		for ient := range sconn.entries {
 			if !ient.pattern && match.Match(ient.channel, pattern) {
-				channels = append(channels, ient.channel)
+				if _, ok := set[ient.channel]; !ok {
+					set[ient.channel] = struct{}{}
+					channels = append(channels, ient.channel)
+				}
 			}
 		}
 		sconn.mu.Unlock()
